@@ -1,6 +1,146 @@
-(* placeholder, replaced below *)
+(* C14 — The PSyIR tree stays well-formed under any sequence of edits.  Property theorems only.
+
+   FULL STATEMENT (what the property asks of the code):
+     forall E fuel s ops, Inv E s ->
+       Inv E (run P_src E fuel s ops) /\ failed_unchanged P_src E fuel s ops
+   i.e. after any history of append / insert / __setitem__ / __delitem__ / remove / pop / extend /
+   clear / reverse / sort / addchild / detach / replace_with / pop_all_children / children-setter
+   operations with arbitrary integer indices, every child's parent pointer is its container, every
+   node's parent lists it, no node is listed twice, every child is valid at its position, and an
+   operation that raised left the forest unchanged.
+   It is FALSE of the code as found (theorems C14_refuted_*: nine concrete histories, replayed on the
+   implementation by props/C14/check.py).  What is proved instead:
+     - C14_*_safe_partial : the statement for every operation/history inside a computable safe
+       fragment [op_safe]/[hist_safe] (what is missing: the operations classified by reason codes
+       1-9 of Model.reason, i.e. exactly the nine defects), for ANY parameter value;
+     - C14_*_full_when_repaired : the full statement, with the sole side condition that no
+       container is deeper than the interpreter's recursion limit (update_signal is recursive),
+       for every parameter value recognised by [P_okb] (the code with props/C14/fix.patch applied
+       translates to such a value; then C14_source_history_full_if_repaired applies to P_src). *)
 From Coq Require Import List ZArith.
-From PV Require Import C14.Model C14.Gen.
-Theorem C14_sort_unchanged : forall P E fuel s c, step P E fuel s (OSort c) = (s, Some ENotImpl).
-Proof. reflexivity. Qed.
-Print Assumptions C14_sort_unchanged.
+Import ListNotations.
+From PV Require Import C14.Model C14.Gen C14.Proofs C14.GenProofs C14.Witness.
+
+Theorem C14_step_safe_partial : forall P E fuel s o,
+  Inv E s -> op_safe P E fuel s o = true ->
+  Inv E (fst (step P E fuel s o)) /\
+  (snd (step P E fuel s o) <> None -> state_eq (fst (step P E fuel s o)) s).
+Proof. exact step_safe_. Qed.
+Print Assumptions C14_step_safe_partial.
+
+Theorem C14_history_safe_partial : forall P E fuel ops s,
+  Inv E s -> hist_safe P E fuel s ops = true ->
+  Inv E (run P E fuel s ops) /\ failed_unchanged P E fuel s ops.
+Proof. exact history_safe_. Qed.
+Print Assumptions C14_history_safe_partial.
+
+Theorem C14_step_full_when_repaired : forall P E fuel s o,
+  P_okb P = true -> Inv E s -> depth_ok fuel s o = true ->
+  Inv E (fst (step P E fuel s o)) /\
+  (snd (step P E fuel s o) <> None -> state_eq (fst (step P E fuel s o)) s).
+Proof. exact step_full_repaired_. Qed.
+Print Assumptions C14_step_full_when_repaired.
+
+Theorem C14_history_full_when_repaired : forall P E fuel, P_okb P = true -> forall ops s,
+  Inv E s -> hist_depth_ok P E fuel s ops = true ->
+  Inv E (run P E fuel s ops) /\ failed_unchanged P E fuel s ops.
+Proof. exact history_full_repaired_. Qed.
+Print Assumptions C14_history_full_when_repaired.
+
+(* the parameters and validity rules translated from the source under test *)
+Theorem C14_source_history_safe_partial : forall Kf Af fuel ops s,
+  let E := mkEnv Kf Af valid_child argn_src in
+  Inv E s -> hist_safe P_src E fuel s ops = true ->
+  Inv (mkEnv Kf Af valid_ref argn_src) (run P_src E fuel s ops) /\ failed_unchanged P_src E fuel s ops.
+Proof.
+  intros Kf Af fuel ops s E HI HS. destruct (history_safe_ P_src E fuel ops s HI HS) as [A B].
+  split; [apply inv_reference_; exact A | exact B].
+Qed.
+Print Assumptions C14_source_history_safe_partial.
+
+Theorem C14_source_history_full_if_repaired : P_okb P_src = true -> forall Kf Af fuel ops s,
+  let E := mkEnv Kf Af valid_child argn_src in
+  Inv E s -> hist_depth_ok P_src E fuel s ops = true ->
+  Inv (mkEnv Kf Af valid_ref argn_src) (run P_src E fuel s ops) /\ failed_unchanged P_src E fuel s ops.
+Proof.
+  intros HP Kf Af fuel ops s E HI HS. destruct (history_full_repaired_ P_src E fuel HP ops s HI HS) as [A B].
+  split; [apply inv_reference_; exact A | exact B].
+Qed.
+Print Assumptions C14_source_history_full_if_repaired.
+
+(* every _validate_child rule accepts only what the frozen reference table accepts *)
+Theorem C14_valid_child_refines_reference :
+  forall ck pos xk, (0 <= pos)%Z -> valid_child ck pos xk = true -> valid_ref ck pos xk = true.
+Proof. exact valid_child_refines_reference_. Qed.
+Print Assumptions C14_valid_child_refines_reference.
+
+(* --- the full statement is false of the code as found: concrete histories from the forest of orphans *)
+Theorem C14_refuted_pop_negative_index :
+  exists E ops, Inv E s0 /\ ~ Inv E (run P_found E FUEL s0 ops).
+Proof. exact refuted_pop_negative_index_. Qed.
+Print Assumptions C14_refuted_pop_negative_index.
+
+Theorem C14_refuted_delitem_negative_index :
+  exists E ops, Inv E s0 /\ ~ Inv E (run P_found E FUEL s0 ops).
+Proof. exact refuted_delitem_negative_index_. Qed.
+Print Assumptions C14_refuted_delitem_negative_index.
+
+Theorem C14_refuted_extend_duplicate :
+  exists E ops, Inv E s0 /\ ~ Inv E (run P_found E FUEL s0 ops).
+Proof. exact refuted_extend_duplicate_. Qed.
+Print Assumptions C14_refuted_extend_duplicate.
+
+Theorem C14_refuted_setitem_negative_index :
+  exists E ops, Inv E s0 /\ ~ Inv E (run P_found E FUEL s0 ops).
+Proof. exact refuted_setitem_negative_index_. Qed.
+Print Assumptions C14_refuted_setitem_negative_index.
+
+Theorem C14_refuted_insert_beyond_end :
+  exists E ops, Inv E s0 /\ ~ Inv E (run P_found E FUEL s0 ops).
+Proof. exact refuted_insert_beyond_end_. Qed.
+Print Assumptions C14_refuted_insert_beyond_end.
+
+Theorem C14_refuted_insert_negative_index :
+  exists E ops, Inv E s0 /\ ~ Inv E (run P_found E FUEL s0 ops).
+Proof. exact refuted_insert_negative_index_. Qed.
+Print Assumptions C14_refuted_insert_negative_index.
+
+Theorem C14_refuted_remove_equal_node :
+  exists E ops, Inv E s0 /\ ~ Inv E (run P_found E FUEL s0 ops).
+Proof. exact refuted_remove_equal_node_. Qed.
+Print Assumptions C14_refuted_remove_equal_node.
+
+Theorem C14_refuted_setter_not_atomic :
+  exists E ops, Inv E s0 /\ ~ failed_unchanged P_found E FUEL s0 ops.
+Proof. exact refuted_setter_not_atomic_. Qed.
+Print Assumptions C14_refuted_setter_not_atomic.
+
+Theorem C14_refuted_ancestor_accepted :
+  exists E ops, Inv E s0 /\ ~ failed_unchanged P_found E FUEL s0 ops.
+Proof. exact refuted_ancestor_accepted_. Qed.
+Print Assumptions C14_refuted_ancestor_accepted.
+
+(* --- non-vacuity of the hypotheses *)
+Example C14_safe_history_nonvacuous :
+  let E := env_of nv_kinds in
+  Inv E s0 /\ hist_safe P_found E FUEL s0 nv_ops = true /\
+  kids (run P_found E FUEL s0 nv_ops) 0 = [1; 2; 3; 4] /\
+  kids (run P_found E FUEL s0 nv_ops) 4 = [8] /\
+  snd (step P_found E FUEL (run P_found E FUEL s0 (firstn 4 nv_ops)) (OPop 0 2)) = Some EGen.
+Proof. exact safe_history_nonvacuous_. Qed.
+Print Assumptions C14_safe_history_nonvacuous.
+
+Example C14_repaired_nonvacuous :
+  P_okb P_fixed = true /\ P_okb P_found = false /\
+  hist_depth_ok P_fixed (env_of w_pop_kinds) FUEL s0 w_pop_ops = true /\
+  snd (step P_fixed (env_of w_pop_kinds) FUEL
+         (run P_fixed (env_of w_pop_kinds) FUEL s0 [OExtend 0 [1; 2; 3; 4]]) (OPop 0 (-2))) = Some EGen /\
+  snd (step P_fixed (env_of [KSchedule; KReturn]) FUEL s0 (OExtend 0 [1; 1])) = Some EGen /\
+  kids (run P_fixed (env_of [KLoop; KSchedule]) FUEL s0 [OInsert 0 3 1]) 0 = [] /\
+  kids (run P_fixed (env_of [KSchedule; KReturn; KReturn]) FUEL s0 [OExtend 0 [1; 2]; ORemove 0 2]) 0 = [2] /\
+  par (run P_fixed (env_of [KSchedule; KReturn; KReturn]) FUEL s0 [OExtend 0 [1; 2]; ORemove 0 2]) 1 = None /\
+  kids (run P_fixed (env_of [KSchedule; KReturn; KLiteral]) FUEL s0 [OAppend 0 1; OSetChildren 0 [2]]) 0 = [1] /\
+  snd (step P_fixed (env_of [KIfBlock; KLiteral; KSchedule]) FUEL
+         (run P_fixed (env_of [KIfBlock; KLiteral; KSchedule]) FUEL s0 [OExtend 0 [1; 2]]) (OAppend 2 0)) = Some EGen.
+Proof. exact repaired_nonvacuous_. Qed.
+Print Assumptions C14_repaired_nonvacuous.
